@@ -7,7 +7,7 @@ Open Scope nat_scope.
 
 (* the configurations covered: Numbers naming, no cleanup, no start-time part, no symlink *)
 Definition numcfg (c : config) (crit : criterion) : Prop :=
-  c_rot c = Some (crit, NNumbers, KNever) /\ fts (c_spec c) = false /\ c_symlink c = false.
+  c_rot c = Some (crit, NNumbers, KNever) /\ fts (c_spec c) = false /\ c_symlink c = false /\ c_async c = false.
 
 Definition fixed0 (c : config) : bytes := fixed_name_part (c_spec c) [].
 Definition nm (c : config) (infix : bytes) : bytes := as_name (c_spec c) (fixed0 c) (Some infix).
@@ -57,7 +57,7 @@ Lemma mount_next_rotates c crit w wr closed roll force :
     /\ cur_view w' wr' = [] /\ roll_size_ok roll' 0 /\ same_env w w'
     /\ (forall m cur, roll = RSize m cur -> exists cur', roll' = RSize m cur').
 Proof.
-  intros [Hrot [Hts Hlink]] I Hnec.
+  intros [Hrot [Hts [Hlink _]]] I Hnec.
   pose proof I as [Q W Hc Hcp Hcl Hon Hwr Hcap].
   unfold mount_next. cbn [mk_rs rs_roll rs_naming rs_cleanup rs_bg]. rewrite Hnec.
   unfold index_for_rcurrent. rewrite !(name_of_fixed c w) by assumption. fold (nm c cur_infix) (nm c (number_infix (N.of_nat (length closed)))).
@@ -230,7 +230,7 @@ Lemma initialize_empty c crit w :
     /\ NumInv c w' wr [] /\ cur_view w' wr = [] /\ roll_size_ok roll 0 /\ same_env w w'
     /\ (forall m, crit = CSize m -> roll = RSize m 0).
 Proof.
-  intros [Hrot [Hts Hlink]] Q Hn Hi.
+  intros [Hrot [Hts [Hlink _]]] Q Hn Hi.
   unfold initialize. rewrite Hrot. unfold init_naming, index_for_rcurrent, with_listing.
   rewrite tick_quiet by assumption.
   unfold get_highest_index, list_log_gz. rewrite existing_rot_empty by assumption. cbn [map_opt max_opt bind].
